@@ -163,3 +163,16 @@ def translate(path):
         if pos != len(stmts):
             raise TranslateError("%s() is called before the last definition (definitions after it are not indexed)" % c)
     return stmts, {"index_calls": index_calls, "ignored": len(ignored)}
+
+
+def commented_rows(path):
+    """The source also lists, as comments, the elements it does not define:
+         # technetium = Element('technetium', 'Tc', 43, None)
+       Returns [(Z, name, symbol)] of those lines (used only to cross-check the model's periodic table)."""
+    import re
+    rows = []
+    for ln in open(path, encoding="utf8"):
+        m = re.match(r"^#\s*(\w+)\s*=\s*Element\(\s*'([A-Za-z]+)'\s*,\s*'([A-Za-z]+)'\s*,\s*(\d+)\s*,", ln)
+        if m:
+            rows.append((int(m.group(4)), m.group(2), m.group(3)))
+    return rows
